@@ -554,7 +554,8 @@ def check_c17(tier, seed, log=print):
             open(inp, 'w').write(c['src'])
             expected = bytes.fromhex(cap.strip).decode('utf-8') + cap.codetext
             RR = random.Random(seed * 31 + i)
-            ops = [RR.choice(['write', 'check', 'check', 'corrupt', 'crlf', 'delete', 'append_nl']) for _ in range(6)]
+            ops = [RR.choice(['write', 'check', 'check', 'corrupt', 'crlf', 'delete', 'append_nl', 'empty', 'append_stale', 'drop_last_line', 'check', 'write'])
+                   for _ in range(8)]
             ops = ['check'] + ops   # check on a missing file first
             state = None
             for op in ops:
@@ -568,6 +569,19 @@ def check_c17(tier, seed, log=print):
                     continue
                 if op == 'append_nl' and state is not None:
                     state = state + '\n'
+                    open(outp, 'w', newline='').write(state)
+                    continue
+                if op == 'empty':
+                    open(outp, 'w').write('')
+                    state = ''
+                    continue
+                if op == 'append_stale' and state is not None:
+                    state = state + ('' if state.endswith('\n') or state == '' else '\n') + '// stale line\n'
+                    open(outp, 'w', newline='').write(state)
+                    continue
+                if op == 'drop_last_line' and state is not None:
+                    ls = state.split('\n')
+                    state = '\n'.join(ls[:-2] + ['']) if len(ls) > 2 else ''
                     open(outp, 'w', newline='').write(state)
                     continue
                 if op == 'delete':
@@ -614,7 +628,7 @@ def check_c17(tier, seed, log=print):
     run.coverage.update(dict(evaluations=n + cli_runs, distinct_nontrivial=len(nontriv), cli_invocations=cli_runs,
                              rule='enum sources with derives in every position (plain, path-qualified, leading ::, several derive attributes, trailing commas), cfg_attr, repr, doc comments, variant and field attributes; '
                                   'strip_attributes output compared structurally (syn) with the input: same header, variants, fields, every non-logos attribute, derive paths minus Logos; generated code parses as a Rust file; '
-                                  'the real logos-cli binary run through random sequences of write / --check / corrupt / CRLF-convert / delete with file snapshots; non-trivial = input has a path-qualified derive',
+                                  'the real logos-cli binary run through random sequences of write / --check / corrupt / CRLF-convert / delete / empty file / stale trailing lines / dropped last line with file snapshots; non-trivial = input has a path-qualified derive',
                              samples=samples, model_vs_impl_disagreements=tie_dis))
     run.assumptions += ['--format (rustfmt) is not exercised', 'which paths "denote Logos" is taken as: last path segment is `Logos`']
     return run.finish()
